@@ -1,5 +1,7 @@
 import Comdex.Lemmas.English
 import Comdex.Lemmas.LimitBid
+import Comdex.Lemmas.LimitFill
+import Comdex.Props.C10
 /-!
 # C11 — Bidders' funds are safe: standing bid held, losers refunded, own deposit only
 
@@ -26,6 +28,13 @@ Property clause → theorem
 * "… and is fully held in custody"                                                  → `C11.bidvalue_in_custody`
                                                                                       (+ `C11.market_total_covered`)
 * the unrepaired `WithdrawLimitAuctionBid` (no guard, defect D5) violates the clause → `C11.limit_withdraw_le_own_deposit_counterexample`
+* the same three limit-bid clauses ACROSS AUTO-FILLS by a Dutch auction (joint model `Model/LimitFill.lean`: book + auction +
+  module account; every history of deposit / withdraw / cancel / market bid / begin-block, any number of bidders per premium):
+    "recorded total = sum of deposits"           → `C11.fill_bidvalue_eq_sum_deposits_partial` (`= Σ + exact`; the clause itself is
+                                                    false after an exact fill: `C11.fill_bidvalue_exact_counterexample`, D36)
+    "fully held in custody"                      → `C11.fill_bidvalue_in_custody` (exact ledger with every remainder named),
+                                                    `C11.fill_deposits_covered`; `C11.fill_overcharge_counterexample` (D24)
+    "at most their own outstanding deposit"      → `C11.fill_withdraw_le_own_deposit`, `C11.fill_touches_only_the_bucket`
 
 Quantification: every finite list of ops — `start` (activator), `bid` / `dbid` (user messages with arbitrary sender,
 auction id, denomination, amount), `tick` (any block time), `settle` (the block hook looking at any auction; it closes
@@ -37,6 +46,9 @@ is the op list `blockOps` (`C11.real_block_hook_is_covered`).
 -/
 namespace Comdex.C11
 open Comdex.English
+
+-- `Dec.fits` compares with 2^315; let `decide` evaluate it in the concrete witnesses below
+set_option exponentiation.threshold 512
 
 /-! ## English-style auctions -/
 
@@ -497,5 +509,161 @@ example :
     let s := LimitBid.run s0 [.deposit 2 2 3 5 2 1000, .withdraw 2 2 3 5 2 400, .withdraw 2 2 3 5 1 100, .withdraw 2 2 3 5 2 601]
     getK s.deps ⟨3, 2, 5, 2⟩ = some 600 ∧ getD0 s.bv (3, 2) = 600 ∧ bal s.eng.bank 2 2 = 396 ∧ bal s.eng.bank 0 2 = 604 ∧
       getD0 s.fees 2 = 4 := by decide
+
+/-! ## limit bids auto-filled by a Dutch auction: the joint model (`Model/LimitFill.lean`)
+
+The book of one market, one second-generation Dutch auction of that pair and the module account they share.  Histories: any finite
+list of `deposit` / `cancel` / `withdraw` (any bidder, premium, amount), market bids, reserve top-ups and begin-blocks (price update,
+restart, the shutdown branch, then `LimitOrderBid` with ANY number of bidders in the bucket, partial fills and fills that close the
+auction), from the state right after the activator.  Nothing is assumed about the limit bids: D7 (several bidders at one
+premium, stale auction value) and D24 (fill clipped by exhausted collateral) are part of the model. -/
+
+section Fill
+open Comdex.DutchV2 Comdex.LimitFill
+open Comdex.LimitBid (getK getD0 fee)
+
+theorem fill_init (je : JEnv) (a : Auc) (b : DutchV2.Bank) (r : Option Int) (hs : C10.Start je.e a) :
+    JInv (b.get .auction .debt) je (initJ je a b r) := by
+  refine ⟨C10.init_invW je.e a b r hs, ?_⟩
+  refine ⟨by intro kv hkv; simp [initJ] at hkv, ?_, ?_, by simp [initJ]⟩
+  · simp [initJ, total, LimitBid.sumK]
+  · simp [initJ, initSt, total, LimitBid.sumK]
+
+/-- **The recorded total of the market equals the sum of the individual deposits — up to the deposits consumed by exact fills.**
+After any history `BidValue = Σ records + exact`, every record is positive, and `exact ≥ 0` is the sum of the deposits that were
+equal to the auction's remaining debt when they were filled: for those `LimitOrderBid` deletes the record and returns before
+it reduces `BidValue` (`auctions.go:561-566`).  `_partial`: the clause itself ("equals") is false of the code after the first exact
+fill — `fill_bidvalue_exact_counterexample`. -/
+theorem fill_bidvalue_eq_sum_deposits_partial (je : JEnv) (hw : WfJEnv je) (a : Auc) (b : DutchV2.Bank) (r : Option Int)
+    (hs : C10.Start je.e a) (ops : List LimitFill.Op) (hops : ∀ op ∈ ops, WfOpJ op) :
+    let s := LimitFill.run je (initJ je a b r) ops
+    s.bv = total s.deps + s.exact ∧ 0 ≤ s.exact ∧ (∀ kv ∈ s.deps, kv.2 > 0) := by
+  obtain ⟨_, hb⟩ := LimitFill.run_inv hw ops _ (fill_init je a b r hs) hops
+  exact ⟨hb.bv, hb.exact_nonneg, hb.pos⟩
+
+/-- **The deposits in custody — the exact ledger of the shared module account, for every history.**  With `other0` what the
+account held of the debt denomination at the start:
+
+  `custody + short + esmOut = other0 + Σ records + fees retained + over + booked + P`,
+  `P = paid` while the auction is open, `P = paid + need − target ≥ 0` once it is closed.
+
+Every term on the right except `over` is ≥ 0.  So the records are fully covered (`fill_deposits_covered`) unless money left the
+account that should not have: `short` (a reserve draw the close needed and did not get — C10's D23) and `esmOut` (`TriggerEsm` under
+shutdown — D35).  `over` is what fills debited from deposits beyond what the auction charged (D24: it stays in the account,
+claimed by no record); `P` after the close is what several bidders at one premium paid beyond the target (D7: stays as well). -/
+theorem fill_bidvalue_in_custody (je : JEnv) (hw : WfJEnv je) (a : Auc) (b : DutchV2.Bank) (r : Option Int)
+    (hs : C10.Start je.e a) (ops : List LimitFill.Op) (hops : ∀ op ∈ ops, WfOpJ op) :
+    let s := LimitFill.run je (initJ je a b r) ops
+    (∀ a', s.d.auc = some a' →
+      s.d.bank.get .auction .debt + s.d.short + s.d.esmOut =
+        b.get .auction .debt + total s.deps + s.fees + s.over + s.d.booked + s.d.paid) ∧
+    (s.d.auc = none →
+      s.d.bank.get .auction .debt + s.d.short + s.d.esmOut =
+        b.get .auction .debt + total s.deps + s.fees + s.over + s.d.booked + (s.d.paid + s.d.need - je.e.target) ∧
+      0 ≤ s.d.paid + s.d.need - je.e.target) ∧
+    0 ≤ s.d.paid ∧ 0 ≤ s.d.booked ∧ 0 ≤ s.d.short ∧ 0 ≤ s.d.esmOut ∧ 0 ≤ total s.deps := by
+  obtain ⟨hwi, hb⟩ := LimitFill.run_inv hw ops _ (fill_init je a b r hs) hops
+  simp only
+  refine ⟨?_, ?_, hwi.paid_nonneg, hwi.booked_nonneg, hwi.short_nonneg, hwi.esm_nonneg, total_nonneg hb.pos⟩
+  · intro a' ha'
+    obtain ⟨_, _, o3⟩ := hwi.open_ a' ha'
+    rw [o3, hb.cust]
+  · intro hn
+    obtain ⟨c1, c2⟩ := hwi.closed hn
+    exact ⟨by have := hb.cust; omega, by omega⟩
+
+/-- **Fully held in custody**, in the form the clause is meant: if no reserve draw was skipped, `TriggerEsm` paid nothing out and
+no fill charged more than it debited, the module account holds at least what it held at the start plus every outstanding
+deposit plus the fees it retained — whatever the auction did in between (partial fills, closing fills, several bidders at one
+premium). -/
+theorem fill_deposits_covered (je : JEnv) (hw : WfJEnv je) (a : Auc) (b : DutchV2.Bank) (r : Option Int)
+    (hs : C10.Start je.e a) (ops : List LimitFill.Op) (hops : ∀ op ∈ ops, WfOpJ op)
+    (h1 : (LimitFill.run je (initJ je a b r) ops).d.short = 0) (h2 : (LimitFill.run je (initJ je a b r) ops).d.esmOut = 0)
+    (h3 : 0 ≤ (LimitFill.run je (initJ je a b r) ops).over) :
+    let s := LimitFill.run je (initJ je a b r) ops
+    b.get .auction .debt + total s.deps + s.fees ≤ s.d.bank.get .auction .debt := by
+  obtain ⟨o, c, p1, p2, _, _, _⟩ := fill_bidvalue_in_custody je hw a b r hs ops hops
+  simp only at o c p1 p2 ⊢
+  cases hauc : (LimitFill.run je (initJ je a b r) ops).d.auc with
+  | some a' => have := o a' hauc; omega
+  | none => obtain ⟨c1, c2⟩ := c hauc; omega
+
+/-- **A begin-block touches only the records of the auction's current premium bucket**: every record at another premium is
+exactly what it was (no other depositor is debited, whatever happens in the loop). -/
+theorem fill_touches_only_the_bucket (je : JEnv) (s : JSt) (esm : Bool) (now twaC twaD : Int) (actC actD : Bool) (a : Auc) (k : Int)
+    (ha : (if esm then tickIterEsm je.e s.d now twaC actC twaD actD else tickIter je.e s.d now twaC actC twaD actD).auc = some a)
+    (hk : bucket a = .ok (some k)) (key : RKey) (hne : key.1 ≠ k) :
+    getK (LimitFill.step je s (.tick esm now twaC actC twaD actD)).deps key = getK s.deps key :=
+  tick_frame a ha k hk key hne
+
+/-- **A depositor withdraws at most their own outstanding deposit** — in the joint model too, i.e. also for a record that an
+auto-fill has already reduced: an accepted `withdraw` finds the caller's own record, `0 < amt ≤ record`, and the caller is paid
+`amt − fee` out of the module account; the guard reads the record as the fills left it. -/
+theorem fill_withdraw_le_own_deposit (je : JEnv) (s s' : JSt) (who : Nat) (prem amt : Int)
+    (h : stepE je s (.withdraw who prem amt) = .ok s') :
+    ∃ rec, getK s.deps (prem, who) = some rec ∧ 0 < amt ∧ amt ≤ rec := by
+  simp only [stepE] at h
+  unfold withdrawStep at h
+  split at h
+  · cases h
+  · split at h
+    · cases h
+    · split at h
+      · cases h
+      · rename_i rec hk
+        split at h
+        · cases h
+        · exact ⟨rec, hk, by omega, by omega⟩
+
+/-! ### witnesses (replayed on the real begin-blocker by `TestC11Fill`, first sequences of the run) -/
+
+def fEnv : JEnv := { e := C10.wEnv, order := [4, 1, 3, 2] }
+def fBank : DutchV2.Bank := [((.auction, .coll), 1000000), ((.bidder 1, .debt), 10000000), ((.bidder 2, .debt), 10000000),
+  ((.bidder 3, .debt), 10000000), ((.bidder 4, .debt), 10000000), ((.reserve, .debt), 100000000)]
+def fInit : JSt := initJ fEnv (C10.wAuc 1680000000000000000000000 1400000000000000000000000) fBank (some 100000000)
+
+/-- **`BidValue` is not reduced by an exact fill** (`auctions.go:561-566`): b1 deposits exactly the target 1 120 000 at premium 9,
+b2 500 000 at premium 20; the block at +2950 s fills the auction from b1's deposit and closes it: b1's record is gone, the
+recorded total still says 1 620 000 although only b2's 500 000 are outstanding. -/
+theorem fill_bidvalue_exact_counterexample :
+    let s := LimitFill.run fEnv fInit [.deposit 1 9 1120000, .deposit 2 20 500000, .tick false 2950 1400000 true 1000000 true]
+    s.d.auc = none ∧ s.deps = [((20, 2), 500000)] ∧ s.bv = 1620000 ∧ s.exact = 1120000 ∧ total s.deps = 500000 := by decide
+
+/-- D7 in the joint model: b1 and b2 wait with 400 000 each at premium 9 and are both filled against the value read before the
+loop (the record then asks for 720 000 more although 800 000 of 1 120 000 are paid).  Every limit-bid clause holds: both records
+are gone, `BidValue` = Σ records = b3's 250 000, and the module account holds b3's deposit plus everything the two paid. -/
+example :
+    let s := LimitFill.run fEnv fInit [.deposit 1 9 400000, .deposit 2 9 400000, .deposit 3 10 250000,
+      .tick false 2950 1400000 true 1000000 true]
+    (s.d.auc.map fun a => a.debt) = some 720000 ∧ s.deps = [((10, 3), 250000)] ∧ s.bv = 250000 ∧ s.d.paid = 800000 ∧
+      s.d.bank.get .auction .debt = 250000 + 800000 ∧ s.over = 0 ∧ s.exact = 0 := by decide
+
+/-- **D24 in the joint model** (`auctions.go:561-572`): collateral worth 990 000 at the posted price, remaining target 1 120 000, b1
+has 2 000 000 waiting at premium 1: the fill closes the auction, the auction charges 990 000 (the reserve adds 130 000), but the
+record is debited by the whole 1 120 000: 130 000 stay in the module account, claimed by no record (`over`). -/
+theorem fill_overcharge_counterexample :
+    let s := LimitFill.run fEnv (initJ fEnv (C10.wAuc 1200000000000000000000000 1000000000000000000000000) fBank (some 100000000))
+      [.deposit 1 1 2000000, .tick false 2100 1000000 true 1000000 true]
+    s.d.auc = none ∧ s.deps = [((1, 1), 880000)] ∧ s.bv = 880000 ∧ s.d.paid = 990000 ∧ s.over = 130000 ∧
+      s.d.bank.get .auction .debt = 880000 + 130000 := by decide
+
+/-- non-vacuity of the `fill_…` theorems: the witness environment is well-formed, the record the activator wrote is a `Start`, the
+operations are well-formed, and in the run "b1 deposits 3 000 000 at premium 9, b2 600 000 at premium 20, block at +2950 s" the fill
+(a) leaves b2's record alone (premium 20 ≠ bucket 9), (b) leaves b1 a record of 1 880 000 from which b1 then withdraws 880 000 — accepted,
+880 001 more than the rest — refused, and (c) the hypotheses of `fill_deposits_covered` hold (no shortfall, no shutdown, `over = 0`) -/
+example :
+    WfJEnv fEnv ∧ C10.Start fEnv.e (C10.wAuc 1680000000000000000000000 1400000000000000000000000) ∧
+    (∀ op ∈ [LimitFill.Op.deposit 1 9 3000000, .deposit 2 20 600000, .tick false 2950 1400000 true 1000000 true, .withdraw 1 9 880000], WfOpJ op) ∧
+    (let s := LimitFill.run fEnv fInit [.deposit 1 9 3000000, .deposit 2 20 600000, .tick false 2950 1400000 true 1000000 true]
+     s.deps = [((9, 1), 1880000), ((20, 2), 600000)] ∧ s.bv = 2480000 ∧ s.d.auc = none ∧ s.d.short = 0 ∧ s.d.esmOut = 0 ∧ s.over = 0 ∧
+     s.d.bank.get .auction .debt = 2480000 ∧
+     (LimitFill.stepE fEnv s (.withdraw 1 9 880000)).toBool = true ∧ (LimitFill.stepE fEnv s (.withdraw 1 9 1880001)).toBool = false) := by
+  refine ⟨⟨⟨by decide, by decide, by decide, by decide, by decide, by decide⟩, by decide⟩,
+    ⟨rfl, rfl, rfl, by decide, by decide, by decide, by decide, by decide, rfl⟩, ?_, by decide⟩
+  intro op hop
+  simp only [List.mem_cons, List.mem_nil_iff, or_false] at hop
+  rcases hop with h | h | h | h <;> subst h <;> simp [WfOpJ]
+
+end Fill
 
 end Comdex.C11
